@@ -259,6 +259,152 @@ SPECS.update({
     },
 })
 
+SPECS.update({
+    "C08": {
+        "binary": "wl-gen", "flavor": "plain", "shards": 16, "run": gen_run,
+        "timeout_quick": 1200, "timeout_thorough": 3400, "ulimit_kb": 6 << 20,
+        "floor": 1000,
+        "rule": ("one case = one byte string fed to the generated Unmarshal of one type: derived from reference encodings of value trees by truncation at every offset, 9 wire-significant byte values and 4 bit flips at every offset, "
+                 "8 inflated lengths at every length prefix (nested ones included), plus seeded random and key-plausible random strings; no panic/fatal, heap allocation <= 64*len+64KiB (runtime/metrics, re-measured), and whenever dynamicpb "
+                 "also accepts the input the two decoded messages must be equal (itemised diff incl. unknown fields); non-trivial when the mutant is judged by at least one side; distinct by (package, message, mutation family, outcome pair)"),
+        "explanation": "children run under ulimit -v so an allocation bomb is an attributable crash; coverage-guided fuzzing named in the quantifier is not part of the registered check (not reproducible from VERIF_SEED)",
+        "assumptions": TRUST_GEN,
+    },
+})
+
+
+def c09_run(prop, spec, workdir, tier, seed, t0):
+    """Phase 1: operation histories on the full corpus (checkptr build). Phase 2: concurrent Size/Marshal on shared quiescent
+    messages, -race build of one unit per feature group."""
+    try:
+        wl, report = build_corpus(workdir, tier, seed, "behave", "plain")
+    except driver.Inconclusive as e:
+        print("INCONCLUSIVE property=%s reason=%s" % (prop, str(e).replace("\n", " | ")[:1500]))
+        return 2
+    results, crashes, inconc = driver.run_shards(spec, workdir, wl, prop, tier, seed)
+    # phase 2
+    w2 = os.path.join(workdir, "race")
+    os.makedirs(w2)
+    try:
+        wl2, report2 = build_corpus(w2, tier, seed, "race", "race")
+    except driver.Inconclusive as e:
+        print("INCONCLUSIVE property=%s reason=%s" % (prop, str(e).replace("\n", " | ")[:1500]))
+        return 2
+    spec2 = dict(spec)
+    spec2.update({"shards": 4, "shards_thorough": 8, "flavor": "race", "ulimit_kb": None})
+    r2, c2, i2 = driver.run_shards(spec2, w2, wl2, prop, tier, seed, env_extra={"VERIF_C09_PHASE": "concurrent", "_race": "1"})
+    merged = driver.merge(results + r2)
+    for c in crashes + c2:
+        merged["violations"].setdefault(c["sig"], c)
+    merged["inconclusive"] += inconc + i2
+    reps = driver.race_reports(w2)
+    for key, text in reps.items():
+        merged["violations"]["%s:race:%s" % (prop, key)] = {
+            "sig": "%s:race:%s" % (prop, key), "what": "data race reported by the Go race detector: " + key,
+            "count": 1, "witness": {"report": text}}
+    extra_cov = {"race_reports": len(reps), "corpus_packages_linked": sum(1 for p in report["packages"] if p["linked"]),
+                 "race_build_packages_linked": sum(1 for p in report2["packages"] if p["linked"])}
+    return driver.finish(prop, spec, tier, seed, merged, t0, extra_cov=extra_cov)
+
+
+SPECS.update({
+    "C09": {
+        "binary": "wl-gen", "flavor": "plain", "shards": 16, "run": c09_run,
+        "timeout_quick": 1200, "timeout_thorough": 3400, "ulimit_kb": 8 << 20,
+        "floor": 300, "extra_floors": {"concurrent_message_types": 9},
+        "technique": "runtime monitoring: executable model (current contents) vs real object across operation histories; Go race detector for the concurrent clause",
+        "rule": ("sequential: one case = one Marshal/MarshalTo/csproto.Marshal at the end of a seeded history (3-12 ops quick, up to 40 thorough) over {set/clear scalar, grow/shrink string/bytes/list/map, set/clear child, "
+                 "in-place mutation of a nested child, Size, csproto.Size, owning runtime's proto.Size and proto.Marshal, Unmarshal of another value, Reset, csproto.Clone}; mutations are applied in lock-step to a dynamic-message model "
+                 "and (through reflection) to the generated struct; the bytes must equal the generated Marshal of a fresh struct built from the model (for maps with >=2 entries: equal length and equal reference parse); a step whose fresh copy "
+                 "fails too is a content defect owned by C04/C05/C17 and is not counted; non-trivial when >=1 mutation precedes the marshal; distinct by (flavour, message, last op bigram). "
+                 "concurrent: G in {2,8,16,64} goroutines x GOMAXPROCS {1,2,16} call Size/Marshal/csproto.Marshal/runtime Marshal on one quiescent struct under -race; every result must equal the pre-computed bytes"),
+        "explanation": "violations are signed by (flavour, failing call, failure kind, history cause: whether csproto or the owning runtime computed a size before, and whether a mutation followed)",
+        "assumptions": TRUST_GEN + ["message types with declared extensions are skipped here (content-level known findings dominate them)", "the race detector only sees races on executions that happened"],
+    },
+})
+
+
+def _norm_err(msg):
+    import re
+    msg = re.sub(r"verif\.\w+\.\w+", "verif.X", msg)
+    msg = re.sub(r"gen/\w+/", "gen/P/", msg)
+    msg = re.sub(r"verifgen/\S+", "verifgen/P", msg)
+    msg = re.sub(r"p[23](\w+?)_(gogo|gv1|gv2)_\w+", r"pN\1_F_O", msg)
+    msg = re.sub(r"\bp[23](\w+)", r"pN\1", msg)
+    msg = re.sub(r"\d+", "N", msg)
+    return msg
+
+
+def c16_run(prop, spec, workdir, tier, seed, t0):
+    """The generator itself is the code under test: every unit x flavour x full option product goes through the real plug-in
+    twice; the plug-in protocol, byte comparison, go/parser and the Go compiler are the oracle."""
+    try:
+        _, report = build_corpus(workdir, tier, seed, "full", None)
+    except driver.Inconclusive as e:
+        print("INCONCLUSIVE property=%s reason=%s" % (prop, str(e).replace("\n", " | ")[:1500]))
+        return 2
+    merged = {"evaluations": 0, "classes": {}, "samples": [], "violations": {}, "extras": {}, "notes": [], "inconclusive": []}
+
+    def viol(sig, what, wit):
+        v = merged["violations"].setdefault(sig, {"sig": sig, "what": what, "witness": wit, "count": 0})
+        v["count"] += 1
+
+    nfast = 0
+    for p in report["packages"]:
+        if p["optkey"] == "plain":
+            continue
+        nfast += 1
+        merged["evaluations"] += 1
+        api = "v2" if p["flavour"] == "gv2" else "v1"
+        mode = "permessage" if "pm" in p["optkey"] else "singlefile"
+        wit = {"package": p["pkg"], "unit": p["unit"], "flavour": p["flavour"], "options": p.get("fast_param"), "atoms": p["atoms"]}
+        base = "C16:%s:%s:%s" % (api, p["group"], mode)
+        if p.get("base_error"):
+            merged["inconclusive"].append("the runtime's own generator failed for %s: %s" % (p["pkg"], p["base_error"][:200]))
+            continue
+        if p.get("fast_error"):
+            kind = "plugin-crash" if p.get("fast_crash") else "plugin-error"
+            first = p["fast_error"].split("\n")[0][:160]
+            viol("%s:%s:%s" % (base, kind, _norm_err(first)), "%s: protoc-gen-fastmarshal failed: %s" % (p["pkg"], p["fast_error"][:600]), dict(wit, error=p["fast_error"][:3000]))
+            continue
+        if p["files"]:
+            merged["classes"]["%s/%s/%s" % (p["unit"], p["flavour"], p["optkey"])] = 1
+        if not p["deterministic"]:
+            viol(base + ":nondeterministic", "%s: two runs on the identical request produced different bytes" % p["pkg"], wit)
+        for n in p.get("duplicate_names") or []:
+            viol(base + ":duplicate-output-name", "%s: output file name emitted twice: %s" % (p["pkg"], n), dict(wit, files=p["files"]))
+        for n in p.get("bad_names") or []:
+            viol(base + ":undocumented-output-name", "%s: output file name not of the documented form: %s" % (p["pkg"], n), dict(wit, files=p["files"]))
+        for e in p.get("parse_errors") or []:
+            viol(base + ":unparsable:" + _norm_err(e)[:120], "%s: emitted Go source does not parse: %s" % (p["pkg"], e), wit)
+        if not p["compile_ok"] and not p.get("duplicate_names"):
+            if not p["base_compile_ok"]:
+                merged["inconclusive"].append("base code of %s does not compile without the fast-marshal files: %s" % (p["pkg"], (p.get("compile_error") or "")[:300]))
+            else:
+                lines = [l.strip() for l in (p.get("compile_error") or "").splitlines() if ".go:" in l]
+                first = lines[0] if lines else (p.get("compile_error") or "")[:160]
+                first = first.split(": ", 1)[-1]
+                viol("%s:compile-error:%s" % (base, _norm_err(first)[:140]), "%s: generated code does not compile: %s" % (p["pkg"], (p.get("compile_error") or "")[:600]), dict(wit, error=(p.get("compile_error") or "")[:3000]))
+        if len(merged["samples"]) < 6 and p["files"]:
+            merged["samples"].append({"package": p["pkg"], "parameter": p.get("fast_param"), "files": p["files"][:6], "deterministic": p["deterministic"], "compiles": p["compile_ok"]})
+    merged["extras"]["fast_packages"] = nfast
+    merged["extras"]["units"] = len({p["unit"] for p in report["packages"]})
+    return driver.finish(prop, spec, tier, seed, merged, t0)
+
+
+SPECS.update({
+    "C16": {
+        "binary": "corpusgen", "engine": "corpusgen", "run": c16_run,
+        "floor": 150,
+        "technique": "runtime monitoring of the real plug-in: plug-in protocol, byte comparison of repeated runs, go/parser and the Go compiler as oracles",
+        "rule": ("one case = (schema unit, flavour, option tuple {single file, file per message} x {unsafe decode off, on} with the API version fixed by the flavour and specialname= set where the unit needs it): the real protoc-gen-fastmarshal "
+                 "(built from the tree under test) is run twice on the identical CodeGeneratorRequest; it must not fail or crash, both responses must be byte-identical, every file name must be emitted once and be of the form <prefix>.pb.fm.go / "
+                 "<prefix>_<lower(message)>.pb.fm.go, every file must parse (go/parser) and the package must compile together with the types produced by protoc-gen-gogo / protoc-gen-go; non-trivial when the response holds >=1 file; distinct by (unit, flavour, option tuple)"),
+        "explanation": "corpus: feature matrix for proto2 and proto3 (scalars, repeated, packed/unpacked, oneofs, maps by key and value kind, nested/recursive, field-number ranges, enums, well-known types, name collisions, equal short names, proto3 optional, required, extensions by family) plus seeded random units; fields named size/marshal_to are generated for the gogo-style runtimes only (protoc-gen-go cannot rename them: not in the supported set)",
+        "assumptions": TRUST_GEN[:1] + ["the harness plays protoc's role; descriptors validated by protodesc.NewFile"],
+    },
+})
+
 NOT_APPLICABLE = {}
 
 ENGINES = [
